@@ -120,7 +120,11 @@ func populateRawPublicKey(pk *PublicKey) (map[string]interface{}, error) {
 	rawPK := make(map[string]interface{})
 	rawPK[jsonldID] = pk.ID
 	rawPK[jsonldType] = pk.Type
-	rawPK[jsonldPurposes] = pk.Purposes
+
+	// purposes are optional: a key without purposes must not carry an empty 'purposes' member
+	if len(pk.Purposes) > 0 {
+		rawPK[jsonldPurposes] = pk.Purposes
+	}
 
 	jwkBytes, err := pk.JWK.MarshalJSON()
 
